@@ -114,6 +114,12 @@ bool splinetable<Alloc>::write_key(const char* key, const T& value){
 				throw std::runtime_error("Long (HIERARCH) FITS header keywords must not "
 										 "contain lowercase characters (key was '"+
 										 std::string(key)+"')");
+			// FITS header cards hold printable ASCII only; cfitsio silently
+			// replaces anything else by a blank
+			if(key[i]<32 || key[i]>126)
+				throw std::runtime_error("Long (HIERARCH) FITS header keywords must not "
+										 "contain non-printable characters (key was '"+
+										 std::string(key)+"')");
 		}
 		//"HIERARCH ", "= '" and "'" take 13 of the 80 characters of a card, and
 		//cfitsio keeps at least one character between the quotes
@@ -134,6 +140,11 @@ bool splinetable<Alloc>::write_key(const char* key, const T& value){
 	if(ss.fail())
 		return(false);
 	std::string valuedata=ss.str();
+	for(char c : valuedata){
+		if(c<32 || c>126)
+			throw std::runtime_error("Value contains non-printable characters, which "
+									 "cannot be stored in a FITS header ('"+valuedata+"')");
+	}
 	size_t valuelen = valuedata.size() + 1;
 	//For normal (short) keys, we get up to 68 bytes of storage, but for longer keywords
 	//the 'HIERARCH Keyword Convention' kicks in and limits us further
